@@ -255,6 +255,39 @@ Definition mm_read_state (m : mmstate) (ch : string) (rev_ : option (N * string)
       else (m, MState (map spub_of (sort_state (ch_state c))) (fst p) (snd p))
   end.
 
+(* ordered channels: entries by (score, key), ascending or both descending *)
+Definition ord_le (asc : bool) (a b : string * mentry) : bool :=
+  let '(x, y) := if asc then (a, b) else (b, a) in
+  ((me_score (snd x) <? me_score (snd y))%Z
+   || ((me_score (snd x) =? me_score (snd y))%Z && negb (str_ltb (fst y) (fst x))))%bool.
+Fixpoint oinsert (asc : bool) (x : string * mentry) (l : list (string * mentry)) : list (string * mentry) :=
+  match l with
+  | [] => [x]
+  | y :: r => if ord_le asc x y then x :: l else y :: oinsert asc x r
+  end.
+Definition sort_ordered (asc : bool) (st : list (string * mentry)) : list (string * mentry) := fold_right (oinsert asc) [] st.
+
+Definition mm_read_state_ord (m : mmstate) (ch : string) (rev_ : option (N * string)) (asc : bool) (nonce : string)
+  : mmstate * mres :=
+  match sfind ch (mm_chans m) with
+  | None =>
+      let m1 := create_chan m ch nonce in
+      match rev_ with
+      | Some (_, re) => if negb (String.eqb re "") then (m1, MUnrec) else (m1, MState [] 0 nonce)
+      | None => (m1, MState [] 0 nonce)
+      end
+  | Some c =>
+      let p := chan_pos c in
+      if match rev_ with Some (_, re) => negb (String.eqb (snd p) re) | None => false end then (m, MUnrec) else
+      (m, MState (map spub_of (sort_ordered asc (ch_state c))) (fst p) (snd p))
+  end.
+
+Definition mm_stats (m : mmstate) (ch : string) : mres :=
+  match sfind ch (mm_chans m) with
+  | None => MCount 0
+  | Some c => MCount (N.of_nat (List.length (ch_state c)))
+  end.
+
 Definition mm_clear (m : mmstate) (ch : string) : mmstate :=
   mkMM (sdel ch (mm_chans m))
        (filter (fun kv => negb (is_prefix (idem_key ch "") (fst kv))) (mm_idem m)) (mm_now m)
@@ -294,11 +327,14 @@ Definition mm_step (cf : mcfg) (m : mmstate) (o : mop) : mmstate * mres :=
   match o with
   | MPublish ch key po nonce now => mm_publish cf m ch key po nonce now
   | MRemove ch key ro _ _ => mm_remove cf m ch key ro
-  | MReadState ch rev_ limit key _ _ nonce => mm_read_state m ch rev_ limit key nonce
+  | MReadState ch rev_ limit key asc _ nonce =>
+      if (mc_ordered cf && String.eqb key "" && negb (limit =? 0)%Z)%bool then mm_read_state_ord m ch rev_ asc nonce
+      else mm_read_state m ch rev_ limit key nonce
   | MReadStream ch since limit reverse _ nonce => mm_read_stream m ch since limit reverse nonce
   | MClear ch => (mm_clear m ch, MUnit)
   | MTick ms => (mkMM (mm_chans m) (mm_idem m) (mm_now m + ms) (mm_exp m), MUnit)
   | MCleanup now _ => (mm_cleanup cf m now, MUnit)
+  | MStats ch => (m, mm_stats m ch)
   end.
 
 Fixpoint mm_run (cf : mcfg) (m : mmstate) (ops : list mop) : list mres :=
